@@ -369,6 +369,7 @@ def checkTokenMinter (C : Crypto) (cx : ICtx) (tokenId minter : Bytes) : M Unit 
 /-- `deploy_remote_interchain_token_raw` -/
 def deployRemoteInterchainTokenRaw (C : Crypto) (cx : ICtx) (deploySalt destChain destMinter sender : Bytes) :
     M Bytes := do
+  requireNotPaused
   let tokenId := tokenIdRaw C deploySalt
   let tokRaw ← registeredTokenIdentifier C cx tokenId
   let gasValue := cx.egld
@@ -386,6 +387,7 @@ def deployRemoteInterchainTokenRaw (C : Crypto) (cx : ICtx) (deploySalt destChai
 /-- `deployInterchainToken` (factory.rs:26-110) -/
 def factoryDeployInterchainToken (C : Crypto) (cx : ICtx) (salt name symbol : Bytes) (decimals : Nat)
     (initialSupply : Nat) (minter : Bytes) : M Bytes := do
+  requireNotPaused
   let st ← getI
   let deploySalt := interchainTokenDeploySalt C st cx.caller salt
   let minterBytes ← (if initialSupply > 0 then pure cx.self
